@@ -3,6 +3,7 @@ import TT.Spec.Transform
 import TT.Transform.RootAttach
 import TT.Transform.Misc
 import TT.Transform.Traces
+import TT.Spec.HeadRulesPinned
 namespace Driver
 open TT TT.Tree
 
@@ -178,7 +179,8 @@ def runOpTransform (op : String) (args : List String) : String :=
       | "negra_mark_heads" => firstFail (base ++ [okIf (Spec.negraRuleOK b) "negra-rule"])
       | "mark_heads_by_rules" =>
         let rules := match c.get "mark_heads_preset" with
-          | some "negra" => Gen.HEAD_RULES_NEGRA | some "ptb" => Gen.HEAD_RULES_PTB | _ => []
+          | some "negra" => Spec.PINNED_HEAD_RULES_NEGRA | some "ptb" => Spec.PINNED_HEAD_RULES_PTB | _ => []
+        -- the specification's rule set is the pinned one, not the table regenerated from the code
         firstFail (base ++ [okIf (Spec.uniqueListedOK rules b) "unique-listed-child-not-head"])
       | _ => bad
     | _, _ => bad
